@@ -310,3 +310,61 @@ Qed.
 Lemma translate_ok_sound r d :
   translate_ok r d = true -> point_i32 (tl (translate_rect r d)) = true.
 Proof. unfold translate_ok, padd_ok, point_i32, translate_rect, padd. cbn [tl px py]. tauto. Qed.
+
+(* ---- display-scale inputs satisfy the range hypotheses of the C03 stack theorems ------------------------ *)
+Lemma lower_call_small D S L st bb :
+  rect_small D S bb -> Forall (ad_small D S) st -> 0 <= D -> 0 <= S ->
+  Z.of_nat (length st) <= L ->
+  forall c C, call_small C S c -> 0 <= C ->
+  call_small (C + Z.of_nat (length st) * ((L + 2) * D)) S (lower_call st bb c).
+Proof.
+  intros Hb Hst HD HS. induction Hst as [|ad rest Had Hrest IH]; intros HL c C Hc HC; cbn [lower_call length] in *.
+  - eapply call_small_mono; [|eassumption]. lia.
+  - pose proof (bbox_stack_small D S rest bb Hb Hrest HD HS) as Hbox.
+    set (N := (Z.of_nat (length rest) + 1) * D) in *.
+    assert (0 <= N) by (unfold N; nia).
+    assert (N + D <= (L + 2) * D) by (unfold N; nia).
+    eapply call_small_mono; [|apply (IH ltac:(lia) _ (C + N + D)); [apply lower1c_small; assumption|lia]].
+    nia.
+Qed.
+
+Lemma rect_small_fits N S r : rect_small N S r -> N + S <= lim -> rect_fits r.
+Proof. unsmall. unfold rect_fits, size_fits, i32_max, i32_min. lia. Qed.
+
+Lemma call_small_fits N S c : call_small N S c -> N + S <= lim -> call_fits c.
+Proof. destruct c; cbn [call_small call_fits]; try tauto; apply rect_small_fits. Qed.
+
+Lemma call_small_sizes N S c : call_small N S c -> S <= lim -> call_sizes c.
+Proof.
+  destruct c; cbn [call_small call_sizes]; try tauto; unsmall; unfold size_fits, i32_max; lia.
+Qed.
+
+Lemma ad_small_sizes D S ad : ad_small D S ad -> S <= lim -> adapter_sizes ad.
+Proof.
+  destruct ad; cbn [ad_small adapter_sizes]; try tauto; unsmall; unfold size_fits, i32_max; lia.
+Qed.
+
+Theorem display_scale_op_ok st bb c k :
+  display_scale st bb c ->
+  size_fits (sz bb) /\ Forall adapter_sizes st /\ op_ok st bb k c.
+Proof.
+  intros (Hb & Hst & Hc & Hl).
+  split; [unsmall; unfold size_fits, i32_max; lia|]. split.
+  - eapply Forall_impl; [|exact Hst]. intros ad Had. apply (ad_small_sizes 1024 1024); [assumption|unfold lim; lia].
+  - split; [apply (call_small_sizes 1024 1024); [assumption|unfold lim; lia]|].
+    intros _. split; [apply (rect_small_fits 1024 1024); [assumption|unfold lim; lia]|].
+    pose proof (lower_call_small 1024 1024 64 st bb Hb Hst ltac:(lia) ltac:(lia) ltac:(lia) c 1024 Hc ltac:(lia)) as H.
+    eapply call_small_fits; [exact H|]. unfold lim. nia.
+Qed.
+
+(* stack_compose without any hypothesis on intermediate values, for display-scale inputs *)
+Theorem stack_compose_display_scale st bb k c m q :
+  display_scale st bb c ->
+  paint_all bb k (lower st bb c) m (padd q (g_off (geo_of st bb))) =
+  if g_vis (geo_of st bb) q
+  then free_paint (g_box (geo_of st bb)) (g_col (geo_of st bb)) c (shift (g_off (geo_of st bb)) m) q
+  else m (padd q (g_off (geo_of st bb))).
+Proof.
+  intros H. destruct (display_scale_op_ok st bb c k H) as (Hb & Hst & Hc & Hk).
+  apply stack_compose; assumption.
+Qed.
